@@ -2,14 +2,119 @@ import os, vlib
 META = dict(
     engine='cosched+seqx',
     technique='stateless model checking (CHESS-style preemption-bounded schedule enumeration) of the real arena and thread mempools with a tracking allocator and ownership ground truth, plus exhaustive BFS over allocate/release histories of the real arena against a counter model',
-    level_text='E1: every schedule with <= b preemptions (b=2 quick, 3 thorough) of 15 two/three-thread allocate/tag/verify/release scripts over a shared parsec_arena_t (limits (2,1),(2,0),(3,0),(inf,1),(3,2),(4,2),(2,inf),(4,1),(4,0); element counts 1 and 2) and over a shared parsec_mempool_t (blocks freed by the other thread: owner-return path); after every allocation: alignment, size, distinct live owners, owned elements <= max_used; at rest: counters equal the real list contents, exactly max_used single blocks can be had, no leak, no double free; at most max_released blocks cached (also with two or three threads releasing at the same time). E2: all allocate(1)/allocate(2)/release(k) histories up to depth 8 (thorough 10) for six (max_used,max_cached,elem,alignment) settings against a counter model (grant/refuse, cache hit/miss, counters, cache size).',
-    level_note='Sequential consistency at instrumented accesses; 2-3 threads, <= 5 operations per thread; the arena is driven through parsec_arena_allocate_device_private / parsec_arena_release with harness-built data copies (the chunk layer under test is unchanged), blocks come from a tracking allocator installed in arena->data_malloc/data_free.',
+    level_text='E1: every schedule with <= b preemptions (b=2 quick, 3 thorough) of 15 two/three-thread allocate/tag/verify/release scripts over a shared parsec_arena_t (limits (2,1),(2,0),(3,0),(inf,1),(3,2),(4,2),(2,inf),(4,1),(4,0); element counts 1 and 2) and over a shared parsec_mempool_t (blocks freed by the other thread: owner-return path); after every allocation: alignment, size, distinct live owners, owned elements <= max_used; at rest: counters equal the real list contents, exactly max_used single blocks can be had, no leak, no double free; at most max_released blocks cached (also with two or three threads releasing at the same time). E1g: GENERATED script families, simplest first, each under a wall budget: arena (element 40, alignment 16): all scripts pre-state {(allocation limit 2|none) x (cache limit 0|1|none) x (0|1 block held by somebody else) x (0|1 block already cached)} (11 pre-states placing the threads AT the limits) x T0 || T1 (|| T2) over {allocate 1, allocate 2, release oldest, release newest}, minus contract violations (release without a block), up to thread renaming - quick: (1,1) b=3, (2,1) b=2, (2,2) b=2; thorough: (2,2) b=3, (3,2) b=2, (3,3) b=2, (1,1,1) b=2, (2,2,2) b=1; mempool: pre-population 0|1|2 x T0 || T1 over {allocate, free, hand over to the other thread, take over and free} with every take-over matched, deadlock-free and at least one hand-over - quick: shape (3,2) b=2; thorough: (3,3) b=3, (4,3) b=2; same oracle. E2: all allocate(1)/allocate(2)/release(k) histories up to depth 8 (thorough 10) for six (max_used,max_cached,elem,alignment) settings against a counter model (grant/refuse, cache hit/miss, counters, cache size).',
+    level_note='Sequential consistency at instrumented accesses; 2-3 threads, <= 5 operations per thread; generated families are cut by a wall budget on a loaded machine (exhaustive:false for that leg, scripts_explored < scripts_after_symmetry); the arena is driven through parsec_arena_allocate_device_private / parsec_arena_release with harness-built data copies (the chunk layer under test is unchanged), blocks come from a tracking allocator installed in arena->data_malloc/data_free.',
 )
-RULE = ("cosched: every schedule of each 2-3 thread script with at most b preemptions (scheduling points = every instrumented access to the arena's "
+RULE = ("cosched (hand-written scripts, and every script of the generated families 'family/ar*' / 'family/mp*': see the leg's alphabet, scripts_generated / _after_contract / _after_symmetry / _explored / _completed): every schedule of each 2-3 thread script with at most b preemptions (scheduling points = every instrumented access to the arena's "
         "free-list head, its used/released counters, the list links of every block, the mempools' list heads/nb_elt, the links of every pool "
         "element and the hand-over mailbox); non-trivial = at least one preemption; states = nodes of the schedule tree; distinct outcomes = "
         "distinct (grants, refusals, cache hits, cached blocks, used counter, system allocations). seqx: BFS over operation histories "
         "deduplicated by (used, cached, released, blocks held, free-list shape); non-trivial = history of >= 2 operations")
+
+# ---- generated (bounded-exhaustive) script families: c27gen.py enumerates, arena_conc.c parses the script text; see NOTES.md ----
+# label, kind (ar = arena, mp = mempool), shape (ops per thread), threads with exactly that many ops, pre-states (None = all), preemption bound,
+# seconds a started script may always use, wall budget (s), scripts per engine invocation
+CORE = ['u2c1h0p0', 'u2c1h1p0', 'u2c1h0p1', 'u2c0h1p0', 'u2cIh0p1', 'uIc1h0p1']
+FAMILIES = {
+    'quick': [
+        dict(label='ar11_b3', kind='ar', shape=(1, 1), exact=(), pre=None, bound=3, allow=2.5, budget=6, batch=3),
+        dict(label='ar21_b2', kind='ar', shape=(2, 1), exact=(0,), pre=None, bound=2, allow=2.5, budget=8, batch=6),
+        dict(label='ar22_b2', kind='ar', shape=(2, 2), exact=(0, 1), pre=CORE, bound=2, allow=4, budget=9, batch=4),
+        dict(label='mp32_b2', kind='mp', shape=(3, 2), exact=(), pre=None, bound=2, allow=4, budget=7, batch=3),
+    ],
+    'thorough': [
+        dict(label='ar22_b3', kind='ar', shape=(2, 2), exact=(), pre=None, bound=3, allow=8, budget=60, batch=4),
+        dict(label='ar32_b2', kind='ar', shape=(3, 2), exact=(0,), pre=None, bound=2, allow=3, budget=60, batch=8),
+        dict(label='ar33_b2', kind='ar', shape=(3, 3), exact=(0, 1), pre=CORE, bound=2, allow=4, budget=50, batch=4),
+        dict(label='ar111_b2', kind='ar', shape=(1, 1, 1), exact=(), pre=None, bound=2, allow=6, budget=30, batch=4),
+        dict(label='ar222_b1', kind='ar', shape=(2, 2, 2), exact=(), pre=CORE, bound=1, allow=3, budget=40, batch=8),
+        dict(label='mp33_b3', kind='mp', shape=(3, 3), exact=(), pre=None, bound=3, allow=10, budget=40, batch=2),
+        dict(label='mp43_b2', kind='mp', shape=(4, 3), exact=(0,), pre=None, bound=2, allow=5, budget=30, batch=4),
+    ],
+}
+
+
+def gen_family(ctx, exe, f, procs, jobs):
+    """Explore one generated family: parallel engine invocations over batches of scripts (simplest first) until everything is
+    done or the wall budget is used up; one aggregated evidence leg."""
+    import sys, json, time, statistics
+    from concurrent.futures import ThreadPoolExecutor
+    sys.path.insert(0, os.path.dirname(os.path.abspath(__file__)))
+    import c27gen
+    counts, names, alphabet = c27gen.family(f['kind'], f['shape'], f['pre'], f['exact'])
+    batches = [(i, names[i:i + f['batch']]) for i in range(0, len(names), f['batch'])]
+    t0 = time.time(); t_end = t0 + f['budget']
+    mine = 'fam:%s:' % f['label']
+    nviol0 = len(ctx.violations)
+    os.makedirs(os.path.join(vlib.OUT, 'gen'), exist_ok=True)
+    def one(b):
+        i, part = b
+        left = t_end - time.time()
+        if left < 1.0 or len(ctx.violations) >= nviol0 + 3:
+            return          # budget used up (or violations already reported): not explored -> exhaustive:false
+        gf = os.path.join(vlib.OUT, 'gen', 'C27-%s-%d-%d.txt' % (f['label'], i, os.getpid()))
+        open(gf, 'w').write('\n'.join(part) + '\n')
+        dl = max(2, int(left), int(f['allow'] * len(part) + 0.999))      # a started batch may always use `allow` seconds per script
+        ctx.run_engine(exe, ['--gen-file', gf, '--bound', str(f['bound']), '--scenario', 'all', '--jobs', str(jobs), '--deadline', str(dl), '--outdir', vlib.OUT],
+                       label='%s%d' % (mine, i), timeout=dl + 300)
+        try: os.unlink(gf)
+        except OSError: pass
+    with ThreadPoolExecutor(max_workers=procs) as ex:
+        list(ex.map(one, batches))
+    legs = [l for l in ctx.legs if str(l.get('leg', '')).startswith(mine)]
+    ctx.legs[:] = [l for l in ctx.legs if not str(l.get('leg', '')).startswith(mine)]
+    pos = {nm: i for i, nm in enumerate(names)}
+    legs.sort(key=lambda l: pos.get(l['name'], 0))
+    complete = [l for l in legs if l.get('exhaustive')]
+    outs = [int(l.get('distinct_outcomes', 0)) for l in (complete or legs)]
+    samples = []
+    for l in sorted(legs, key=lambda l: -int(l.get('distinct_outcomes', 0)))[:2] + legs[:1]:
+        for sm in l.get('samples', [])[:1]:
+            samples.append(dict(sm, script=l['name']))
+    nviol = sum(int(l.get('violations', 0)) for l in legs)
+    nex = sum(int(l.get('executions', 0)) for l in legs)
+    ctx.add_leg(name=f['label'], leg='family', engine='cosched', object={'ar': 'arena', 'mp': 'mempool'}[f['kind']], shape=list(f['shape']),
+                exact_threads=list(f['exact']), prestates=f['pre'] or (c27gen.AR_PRE if f['kind'] == 'ar' else c27gen.MP_PRE), bound=f['bound'], alphabet=alphabet,
+                scripts_generated=counts['generated'], scripts_after_contract=counts['after_contract'], scripts_after_relevance=counts.get('after_relevance', counts['after_contract']),
+                scripts_after_symmetry=counts['after_symmetry'], scripts_explored=len(legs), scripts_completed=len(complete),
+                states=sum(int(l.get('states', 0)) for l in legs), transitions=sum(int(l.get('transitions', 0)) for l in legs),
+                executions=nex, nontrivial=sum(int(l.get('nontrivial', 0)) for l in legs),
+                distinct_outcomes=sum(outs), outcomes_per_script=dict(min=min(outs), median=statistics.median(outs), max=max(outs)) if outs else {},
+                single_outcome_scripts=sum(1 for o in outs if o <= 1), max_points=max([int(l.get('max_points', 0)) for l in legs] or [0]),
+                exhaustive=(len(complete) == counts['after_symmetry']), violations=nviol, last_script_explored=legs[-1]['name'] if legs else None,
+                wall_s=round(time.time() - t0, 2), samples=samples)
+    sys.stderr.write('C27 family %s (bound %d): %d generated, %d after contract, %d after symmetry; explored %d (complete %d), %d schedules, outcomes/script min %s max %s, %d single-outcome, %.1fs\n'
+                     % (f['label'], f['bound'], counts['generated'], counts['after_contract'], counts['after_symmetry'], len(legs), len(complete), nex,
+                        min(outs) if outs else '-', max(outs) if outs else '-', sum(1 for o in outs if o <= 1), time.time() - t0))
+    # vacuity guard: a family whose scripts all have one outcome collides with nothing
+    if len(complete) >= 8 and max(outs) <= 1 and not nviol:
+        ctx.broken.append('family %s: every one of the %d explored scripts has a single outcome: the alphabet collides with nothing' % (f['label'], len(complete)))
+    # the replay file of a generated script is self-contained (scenario = script text); add the expansion for the reader
+    for rp, lab in ctx.violations[nviol0:]:
+        try:
+            o = json.load(open(rp))
+            if o.get('scenario', '').startswith('g_'):
+                o['script'] = c27gen.describe(o['scenario']); o['script_text'] = o['scenario']
+                json.dump(o, open(rp, 'w'), separators=(',', ':'))      # compact: cosched's replay reader looks for "scenario":" and "choices":[
+        except (OSError, ValueError):
+            pass
+
+
+def families(ctx, exe):
+    sel = os.environ.get('C27_FAMILIES')                    # development: comma-separated labels
+    scale = float(os.environ.get('C27_BUDGET_SCALE', '1'))   # development: multiply the wall budgets
+    if ctx.tier == 'thorough' and 'C27_BUDGET_SCALE' not in os.environ:
+        # the other legs are deadline-bound; when the machine is not overloaded they finish early and the families get what is left of
+        # the tier's ~20 minutes (never less than their nominal budgets, at most 3 times as much)
+        import time
+        scale = max(1.0, min(3.0, (1080 - (time.time() - ctx.t0)) / sum(f['budget'] for f in FAMILIES[ctx.tier])))
+    for f in FAMILIES[ctx.tier]:
+        if sel and f['label'] not in sel.split(','):
+            continue
+        # the scripts are small: one worker per invocation and one invocation per core up to bound 2; 2 workers each beyond
+        procs, jobs = (max(1, min(16, vlib.NJOBS)), 1) if f['bound'] <= 2 else (max(1, min(8, vlib.NJOBS // 2)), 2)
+        gen_family(ctx, exe, dict(f, budget=f['budget'] * scale), procs, jobs)
+
 def build(ctx):
     return ctx.compile('hk-shm', 'arena', ['arena_conc.c'], engine='cosched')
 def build_seq(ctx, depth):
@@ -20,16 +125,20 @@ def check(ctx):
         env = dict(os.environ); env['C27_SET'] = sets
         args = ['--bound', str(bound), '--jobs', str(min(vlib.NJOBS, 4 if ctx.tier == 'quick' else 12)), '--outdir', vlib.OUT, '--deadline', str(deadline)]
         ctx.run_engine(exe, args, label='arena-%s-b%d' % (sets, bound), timeout=deadline + 600, env=env)
-    if ctx.tier == 'quick':
-        leg('a', 2, 30)
-        leg('k', 2, 6)
-        leg('b', 1, 8)
-        ctx.run_engine(build_seq(ctx, 8), ['--outdir', vlib.OUT, '--deadline', '20'], label='arena-seq-d8', timeout=300)
-    else:
-        leg('a', 3, 300)
-        leg('k', 3, 45)
-        leg('b', 2, 250)
-        ctx.run_engine(build_seq(ctx, 10), ['--outdir', vlib.OUT, '--deadline', '120'], label='arena-seq-d10', timeout=900)
+    which = os.environ.get('C27_ONLY', '')        # development switch: 'gen' = generated families only, 'hand' = everything else
+    if which in ('', 'hand'):
+        if ctx.tier == 'quick':
+            leg('a', 2, 30)
+            leg('k', 2, 6)
+            leg('b', 1, 8)
+            ctx.run_engine(build_seq(ctx, 8), ['--outdir', vlib.OUT, '--deadline', '20'], label='arena-seq-d8', timeout=300)
+        else:
+            leg('a', 3, 300)
+            leg('k', 3, 45)
+            leg('b', 2, 250)
+            ctx.run_engine(build_seq(ctx, 10), ['--outdir', vlib.OUT, '--deadline', '120'], label='arena-seq-d10', timeout=900)
+    if which in ('', 'gen'):
+        families(ctx, exe)
     return ctx.finish(RULE, ["sequential consistency at instrumented accesses (no weak-memory effects)",
                              "gcc -fsanitize=thread instrumentation reports every access to the watched objects",
                              "owners respect the usage contract (a block is released once, by its owner, after detaching the copy)"])
